@@ -346,6 +346,18 @@ def value_paths(ck):
             a = g.postdominated(cs, both, keep=keep_t)
             b = not (both & g.reach([cs], blocked={g.site_of(find_loops(fm)[-1]["desugar"]["cond"])}, keep=keep_f, include_start=False))
             ok = a and b
+            # the remove-after count belongs to the token that was appended: it is recomputed after every appended token and by no token
+            # whose condition does not hold (a hidden token neither sets nor clears it)
+            lc = g.site_of(find_loops(fm)[-1]["desugar"]["cond"])
+            rs_ = g.site_of(ra[0])
+            hidden_sets = rs_ in g.reach([cs], blocked={lc}, keep=keep_f, include_start=False)
+            always_after = g.postdominated(cs, {rs_}, keep=keep_t)
+            before_append = bool((both - {rs_}) & g.reach([rs_], blocked={lc}, include_start=False))
+            oks = (not hidden_sets) and always_after and not before_append
+            ck.ob("C12-O3", sitestr(fm, ra[0]), oks, "format(): the remove-after count is taken from each appended token, after its append, and from no hidden token" if oks else
+                  "format(): removeAfter() %s" % ("is evaluated for tokens whose condition does not hold: a hidden optional attribute eats the start of the next literal, a hidden token clears a pending count" if hidden_sets else
+                                                  "is not evaluated after every appended token" if not always_after else "is evaluated before the token is appended"),
+                  key="format|skip-scope")
     ck.ob("C12-O3", sitestr(fm), ok, "format(): each token whose condition matches is appended once, in order; others are skipped" if ok else "format(): token append structure not as expected", key="format|token-loop")
 
 
